@@ -20,6 +20,7 @@ structure PState where
   haveRoot : Bool := false
   slots : List (Int × Fin N) := [(0, ⟨0, by decide⟩)]   -- communicator id ↦ slot (the root communicator is created first: id 0)
   dead : Bool := false
+  retired : List Int := []                    -- ids of helper communicators whose thread has terminated
   lastRootDeq : Int × Int := (-1, -1)        -- type and job id of the command the engine thread dequeued last
   strict : Bool := false                    -- also check `exitQuiet` of Conc/Access.lean at every thread termination (C09)
   count : Nat := 0
@@ -108,11 +109,13 @@ def onEvent (ps : PState) (self : Int) (kind : String) (a b c d : Int) : R := do
         | none => true
       if ps.strict && !quiet then .error s!"exit-not-quiet: helper {a} is destroyed while its parent's thread is running (parent pc {match s.parent v with | some p => showPc (s.pc p) | none => "-"})" else
       let ps1 ← doStep ps (.exit v) s!"exit {a} (pc {showPc (s.pc v)}, terminate {b})"
-      .ok { ps1 with slots := ps1.slots.filter (fun p => p.1 != a) }
+      .ok { ps1 with slots := ps1.slots.filter (fun p => p.1 != a), retired := a :: ps1.retired }
   | "WAIT_RET" =>
       let v ← needSlot ps a
       doStep ps (.waitRet v) s!"WAIT_RET {a} (pc {showPc (s.pc v)}, flag {s.flag v})"
   | "NOTIFY" =>
+      -- `~WorkerThread`: terminate; notify; join — the thread may have seen `terminate` and left before this notify is logged
+      if ps.retired.contains a && (self == -1 || isRootId ps self) then .ok ps else
       let t ← needSlot ps a
       if self == -1 then doStep ps (.pNotify t) "P notify"
       else
